@@ -9,10 +9,10 @@ PROP = dict(
         dict(name="directed", harness="c03_fd_events", flavour="asan", mode="directed", quick=28, thorough=28, scalable=False,
              args=_WD, case_timeout=120),
         # case 2k = scenario k on epoll, 2k+1 = the same scenario on select; scenario class k%4 limits the destructive actions
-        dict(name="safety", harness="c03_fd_events", flavour="asan", mode="safety", quick=400000, thorough=12000000,
+        dict(name="safety", harness="c03_fd_events", flavour="asan", mode="safety", quick=300000, thorough=9000000,
              args=_WD, case_timeout=120),
         # one case = one order-independent scenario run on epoll and on select in the same process, callbacks compared per pass
-        dict(name="equiv", harness="c03_fd_events", flavour="asan", mode="equiv", quick=160000, thorough=5000000,
+        dict(name="equiv", harness="c03_fd_events", flavour="asan", mode="equiv", quick=140000, thorough=4400000,
              args=_WD, case_timeout=120),
     ],
     rule=("safety: a seeded scenario of 2-5 pipes / AF_UNIX stream socket pairs (4-10 descriptors), 1-3 FdEvents on ~60% of the "
@@ -28,7 +28,12 @@ PROP = dict(
           "case index) and select (odd). equiv: the same generator restricted to scripts that are order-independent by construction "
           "(a callback acts on itself or on events it owns whose descriptor has poll revents 0 in that pass, creates events only on such "
           "descriptors, closes only never-watched peers; no except mask, no writes), run on both back-ends in one process; the per-pass "
-          "multisets of (event, reported mask & subscription) must be equal. directed: 14 minimal histories x 2 back-ends. "
+          "multisets of (event, reported mask & subscription) must be equal. One scenario in five of both legs is 'wide': 8-32 "
+          "channels, most descriptors idle and without events, 8-12 or 23-28 registered descriptors at the start (just below the 14th / "
+          "30th record of the loop's descriptor map, its own wake-up descriptor included), 40% of the callback actions create+enable an "
+          "event on an already open descriptor the loop has no record for and 20% drain the own descriptor, so the map grows and "
+          "re-hashes while a pass is being served; an event called a second time in one pass whose descriptor is no longer ready is a "
+          "violation. directed: 14 minimal histories x 2 back-ends. "
           "A case is non-trivial when some pass had at least two descriptors with a due enabled event and a callback changed another "
           "event (enable/disable/destroy/create); distinct = distinct hashes of the executed action script (kinds, target classes, "
           "descriptors, masks, readiness shaping) among those"),
@@ -78,5 +83,9 @@ PROP = dict(
         # back-end equivalence
         "equiv_scenarios_compared", "equiv_callbacks_matched", "equiv_passes_with_two_or_more_callbacks",
         "directed_cases",
+        # wide scenarios: descriptors registered from inside callbacks while the loop's descriptor map crosses its growth thresholds
+        "wide_scenarios", "max_registered_descriptors", "new_descriptor_registered_in_callback",
+        "new_descriptor_registered_in_callback_with_ge_13_records", "registration_in_callback_grows_map_to_14_records",
+        "registration_in_callback_grows_map_to_30_records", "map_growth_in_callback_between_served_and_unserved_fds",
     ]},
 )
